@@ -4,6 +4,10 @@ use statime_base::{ClockId, Direction, Duration, LinkId, TAI, Timestamp};
 use crate::float_polyfill::FloatPolyfill;
 use crate::{AlgoError, ringbuffer::UnorderedRingBuffer};
 
+#[cfg(all(pendulum_project_ntpd_rs_verif, feature = "std"))]
+#[path = "/verif/hooks/statime_algo/link_noise_probe.rs"]
+mod verif_probe;
+
 const MIN_DELAYS_FOR_ESTIMATES: usize = 4;
 /// FIXME: Consider whether we want this configurable.
 const MAX_TIME_BETWEEN_HALVES: Duration = Duration::from_seconds_nanos(0, 500_000_000);
